@@ -18,7 +18,6 @@ import (
 	"fmt"
 	"math"
 	"os"
-	"sort"
 	"strings"
 	"sync"
 	"time"
@@ -1064,7 +1063,7 @@ func main() {
 		}
 		ds = append(ds, &d)
 	} else {
-		nScripted, nFail, nRaw, nSvc := 520, 80, 0, 0
+		nScripted, nFail, nRaw, nSvc := 1000, 120, 40, 40
 		if o.Tier == "thorough" {
 			nScripted, nFail, nRaw, nSvc = 6000, 400, 600, 600
 		}
@@ -1108,7 +1107,7 @@ func main() {
 			ds = append(ds, genService(r, id, dist))
 			withService = true
 		}
-		if nSvc > 0 && os.Getenv("VERIF_C19_OVERFLOW") != "0" {
+		if o.Tier == "thorough" && os.Getenv("VERIF_C19_OVERFLOW") != "0" {
 			for i := 0; i < 8; i++ {
 				id++
 				ds = append(ds, genOverflow(r, id, dist))
@@ -1173,11 +1172,6 @@ func main() {
 	extra["scripts_rerun_because_of_jitter"] = reruns
 	probeMu.Unlock()
 	e.close()
-	keys := make([]string, 0, len(dist))
-	for k := range dist {
-		keys = append(keys, k)
-	}
-	sort.Strings(keys)
 	nontriv := 0
 	for _, c := range cases {
 		if c.Nontrivial {
@@ -1186,6 +1180,6 @@ func main() {
 	}
 	dist["nontrivial"] = nontriv
 	Emit(o, "C19", "From GoRes Require Import Run.Run_C19.", "ccase",
-		"SendRequest against a scripted res.Conn over an embedded nats-server: 0-6 arrivals on a 40 ms grid mixing valid timeout pre-responses (incl. escapes, signs, int64 wrap-around, several tags), pre-responses without effect, result/resource/error responses and garbage; failing marshal/subscribe/publish; thorough adds arrivals sent through the server and a real res.Service; every timer-vs-message decision >= 120 ms from a tie; non-trivial = a failing step or at least one pre-response in the script; distinct by script",
+		"SendRequest against a scripted res.Conn over an embedded nats-server: 0-6 arrivals on a 40 ms grid mixing valid timeout pre-responses (incl. escapes, signs, int64 wrap-around, several tags), pre-responses without effect, result/resource/error responses and garbage; failing marshal/subscribe/publish; plus arrivals sent through the server and a real res.Service playing handler scripts (many more in thorough); every timer-vs-message decision >= 120 ms from a tie; non-trivial = a failing step or at least one pre-response in the script; distinct by script",
 		cases, dist, extra, impl, 100)
 }
